@@ -25,6 +25,7 @@ Mirrors, from `/repo` **with `fixes/C20-kind-change.patch` applied**:
   ("namespace %s not found"), and `_cleanSpace` (after every delete) removes — with everything in
   it — when its two emptiness probes (`trafficGates`, then `pipelines`) both find nothing
   (`CState.ns`, `cleanSpace`).
+* `Supervisor.close`, `TrafficController.Close / Clean` — `shutdown` (every stored object closed once).
 * `Spec.Equals` — equality of kind and body (the name is the map key; `reflect.DeepEqual` of the raw
   specs is trusted).
 
@@ -288,5 +289,16 @@ def stepEvent (P : Params) (s : Sys) : Item → Option Event
       if ev.isEmpty then none else some ev
     else none
   | .attach => if s.w.attached then none else some (attachEvent P s.ents)
+
+/-! ### shutdown -/
+
+/-- `Supervisor.close` (`businessControllers.Range`: `CloseWithRecovery` on every stored entity) and
+`TrafficController.Close` / `Clean` (both `sync.Map`s of the namespace, then the namespace goes):
+every stored object is closed once, in the iteration order `ord` of the maps (theorems quantify over
+every permutation); nothing is live afterwards. (`Supervisor.close` leaves the closed entities in its
+map — its run loop has ended; the model empties the store.) -/
+def shutdown (P : Params) (ord : Map (Nat × Name) Entity → Map (Nat × Name) Entity) (c : CState) :
+    CState :=
+  { store := [], log := c.log ++ (ord c.store).map (fun e => callClose P e.1.2 e.2), ns := false }
 
 end EgVerif.Lifecycle
